@@ -71,6 +71,8 @@ def make_components(jnp, rec, answer_fn, control, InterpResult, horizon):
         def interpolate_fwd_at_t1(self, *, t, interp_from, interp_to):
             f, o = int(interp_from.uid), int(interp_to.uid)
             rec.events.append(dict(ev="at_t1", t=float(t), frm=f, to=o, t_from=float(interp_from.t), t_to=float(interp_to.t)))
+            if sum(1 for e in rec.events if e["ev"] == "at_t1") > horizon:
+                raise Livelock("the loop keeps reporting the same checkpoint without advancing")
             return interp_to, InterpResult(step_from=interp_to, interp_from=interp_to)
 
         def userfriendly_output(self, *, solution0, solution, solution1):
